@@ -55,6 +55,7 @@ def _build_world(ctx, n):
 	root = ctx.scratch
 	paths = []
 	info = []
+	fifo_data = ctx.fifo_data = {}
 	for i in range(n):
 		if i > 0 and ch.flip(0.12, f'dup{i}'):
 			j = ch.int(0, i - 1, f'dup_of{i}')
@@ -93,12 +94,32 @@ def _build_world(ctx, n):
 				b = bytearray(data)
 				b[-6] ^= 0x5a
 				data = bytes(b)
+		form = 'direct'
 		if kind != 'missing':
 			G.write_file(path, data)
 		else:
 			os.makedirs(os.path.dirname(path), exist_ok=True)
+		if kind == 'ok' and ch.flip(0.08, f'dotdot{i}'):
+			# the path as given goes through a symbolic link to a directory and back up with '..': the OS resolves the
+			# link first (-> other/deep/../gX = other/gX); collapsing '..' lexically would point at a different file
+			form = 'symlink_dotdot'
+			real_dir = os.path.join(root, 'other', f'deep{i}')
+			os.makedirs(real_dir, exist_ok=True)
+			real_path = os.path.join(root, 'other', name)
+			os.replace(path, real_path)
+			link = os.path.join(root, f'lnk{i}')
+			os.symlink(real_dir, link)
+			decoy = G.fasta_bytes(G.make_genome(rng, 1, 100, 300))
+			G.write_file(os.path.join(root, name), G.gz_bytes(decoy) if gz else decoy)     # what a lexical collapse would read
+			path = os.path.join(link, '..', name)
+		elif kind == 'ok' and not gz and ch.flip(0.04, f'fifo{i}'):
+			# a named pipe: size 0, content supplied by a writer when (and only when) somebody opens it for reading
+			form = 'fifo'
+			os.unlink(path)
+			os.mkfifo(path)
+			fifo_data[path] = data
 		paths.append(path)
-		info.append(dict(kind=kind, gz=gz, size=len(data)))
+		info.append(dict(kind=kind, gz=gz, size=len(data), form=form))
 	return paths, info
 
 
@@ -215,7 +236,7 @@ MODEL_UNREADABLE = ('missing', 'trunc_gz', 'nofasta')
 
 
 def _execute(ctx, kspec, paths, refmaker, mode, workers, policy, script, starve, seam_specs, pool_faults,
-             interrupt_at, progress, machine, info=None, interleave=False, quantum=200, cancel_at=None):
+             interrupt_at, progress, machine, info=None, interleave=False, quantum=200, cancel_at=None, defer_callbacks=False):
 	"""One execution of calc_file_signatures under the simulator. Returns nothing; raises Violation."""
 	from gambit.seq import SequenceFile
 	from gambit.sigs.calc import calc_file_signatures
@@ -238,6 +259,7 @@ def _execute(ctx, kspec, paths, refmaker, mode, workers, policy, script, starve,
 	sim = sx.Sim(ctx, machine_size=machine, policy=policy, script=script, starve=starve, interleave=interleave, quantum=quantum)
 	sim.task_faults = dict(pool_faults)
 	sim.interrupt_at = interrupt_at
+	sim.defer_callbacks = defer_callbacks
 	sim.cancel_at = cancel_at if mode.startswith('exec') else None
 	kw = dict(progress=progress)
 	if mode == 'seq':
@@ -300,10 +322,11 @@ def _res_hash(res):
 
 
 def _merge(old, fault):
-	"""A file carries at most one fault (the later one wins) plus, optionally, short reads."""
+	"""A file carries at most one fault (the later one wins) plus, optionally, short reads / its pipe content."""
 	out = dict(fault)
-	if old and 'short' in old:
-		out['short'] = old['short']
+	for keep in ('short', 'fifo'):
+		if old and keep in old:
+			out[keep] = old[keep]
 	return out
 
 
@@ -331,14 +354,28 @@ def scenario(ctx):
 	else:
 		n = ch.int(0, 12 if thorough else 8, 'n_files')
 	paths, info = _build_world(ctx, n)
+	large = (not exhaustive) and n >= 3 and ch.flip(0.03, 'large_batch')
+	if large:
+		# a batch far beyond the usual size (thresholds such as "sort by size above 500 files" or "chunk work above 200
+		# files per worker" only engage here): the few generated files repeated many times in a seeded order
+		brng = random.Random(ch.subseed('large_batch_order'))
+		N = ch.pick([520, 610, 1040], 'large_n')
+		order = [brng.randrange(n) for _ in range(N)]
+		paths = [paths[j] for j in order]
+		info = [info[j] for j in order]
+		n = N
+		ctx.probe('large_batch')
 	ctx.log('world', k=kspec.k, prefix=kspec.prefix_str, n=n,
-	        files=[(os.path.relpath(p, ctx.scratch), i['kind'], i['size']) for p, i in zip(paths, info)])
+	        files=[(os.path.relpath(p, ctx.scratch), i['kind'], i['size']) for p, i in zip(paths, info)][:40])
 	refmaker = _Ref(ctx, kspec)
 	short = ch.flip(0.5, 'short_reads')
 	base_specs = {}
 	if short:
 		for p in sorted(set(paths)):
 			base_specs[p] = {'short': ch.subseed('short:' + os.path.basename(p))}
+	for p, data in ctx.fifo_data.items():
+		base_specs[p] = dict(base_specs.get(p, {}), fifo=data)
+		ctx.probe('named_pipe_input')
 
 	if exhaustive:
 		mode = ch.pick(['processes', 'threads', 'exec-threads', 'exec-processes', 'default'], 'mode')
@@ -359,7 +396,7 @@ def scenario(ctx):
 		ctx.sample = dict(kind='exhaustive', n=n, mode=mode, workers=workers, executions=count)
 		return
 
-	n_exec = ch.int(1, 6, 'n_exec')
+	n_exec = ch.int(1, 6, 'n_exec') if not large else ch.int(1, 2, 'n_exec_large')
 	for e in range(n_exec):
 		L = f'e{e}'
 		mode = ch.pick(['processes', 'threads', 'seq', 'exec-threads', 'exec-processes', 'default'], L + '.mode')
@@ -384,9 +421,10 @@ def scenario(ctx):
 		interrupt_at = ch.int(1, max(1, n), L + '.int_at') if (n and ch.flip(0.07, L + '.interrupt')) else None
 		progress = _progress(ch)
 		# thread flavour: half of the executions pre-empt task bodies at line events instead of running them atomically
-		interleave = mode in ('threads', 'exec-threads') and ch.flip(0.4, L + '.interleave')
+		interleave = mode in ('threads', 'exec-threads') and n <= 50 and ch.flip(0.4, L + '.interleave')
 		quantum = ch.pick([60, 12, 500], L + '.quantum') if interleave else 200
 		cancel_at = ch.int(1, max(1, n), L + '.cancel_at') if (n and mode.startswith('exec') and ch.flip(0.08, L + '.cancel')) else None
+		defer = mode != 'seq' and ch.flip(0.5, L + '.defer_callbacks')
 		_execute(ctx, kspec, paths, refmaker, mode, workers, policy, None, starve, specs, pool_faults,
-		         interrupt_at, progress, machine, info, interleave, quantum, cancel_at)
+		         interrupt_at, progress, machine, info, interleave, quantum, cancel_at, defer)
 	ctx.sample = dict(kind='sampled', n=n, executions=n_exec)
